@@ -6,7 +6,7 @@
 From Coq Require Import ZArith NArith List Bool Lia ZifyBool ZifyN.
 Require Import Webob.Lib.Val Webob.Lib.PyStr Webob.Lib.Rx Webob.Gen.C03_regexes Webob.Spec.C03_abnf
                Webob.Proofs.C03_lang Webob.Model.C03_scan Webob.Proofs.C03_scan Webob.Proofs.C03_accept_scan
-               Webob.Model.C19_acceptstr Webob.Proofs.C19_quote Webob.Proofs.C19_local Webob.Proofs.C19_valid
+               Webob.Model.C19_acceptstr Webob.Spec.C19_spec Webob.Proofs.C19_quote Webob.Proofs.C19_local Webob.Proofs.C19_valid
                Webob.Proofs.C19_simple Webob.Proofs.C19_accept_scan Webob.Proofs.C19_add.
 Import ListNotations.
 Local Open Scope N_scope.
@@ -30,17 +30,13 @@ Qed.
 (* ---------- comma-stable texts ---------- *)
 (* continuations after a comma that cannot be mistaken for parameters of the previous element:
    the first character that is not a comma / blank is not ';' *)
-Fixpoint cont_ok (t : str) : bool :=
-  match t with
-  | [] => true
-  | c :: t' => if is_junk c then cont_ok t' else negb (c =? 59)
-  end.
-Definition ok_accept (a : str) : Prop :=
-  cont_ok a = true /\ forall t, cont_ok t = true -> scanA (a ++ 44 :: t) = scanA a ++ scanA t.
+(* cont_ok, ok_accept : Spec/C19_spec.v *)
+Lemma cont_ok_cons c t : cont_ok (c :: t) = if is_junk c then cont_ok t else negb (c =? 59).
+Proof. reflexivity. Qed.
 
 Lemma cont_ok_app a t : cont_ok a = true -> cont_ok t = true -> cont_ok (a ++ t) = true.
 Proof.
-  induction a as [|c a IH]; intros Ha Ht; [exact Ht|]. cbn [app cont_ok] in *.
+  induction a as [|c a IH]; intros Ha Ht; [exact Ht|]. cbn [app] in *. rewrite cont_ok_cons in *.
   destruct (is_junk c); [apply IH; assumption|exact Ha].
 Qed.
 
@@ -54,12 +50,12 @@ Proof.
   - apply cont_ok_app; [exact Ca|exact Cb].
   - intros t Ht. rewrite E1. rewrite <- app_assoc. cbn [app]. rewrite Sa.
     + rewrite scanA_space. rewrite Sb by exact Ht. rewrite app_assoc. reflexivity.
-    + cbn [cont_ok]. change (is_junk 32) with true. cbv iota. apply cont_ok_app; [exact Cb|exact Ht].
+    + rewrite cont_ok_cons. change (is_junk 32) with true. cbv iota. apply cont_ok_app; [exact Cb|exact Ht].
 Qed.
 
 Lemma tchar_cont c s : is_tchar c = true -> cont_ok (c :: s) = true.
 Proof.
-  intros H. cbn [cont_ok]. assert (is_junk c = false) as -> by (unfold is_tchar, is_junk in *; cbn [in_ranges] in H; lia).
+  intros H. rewrite cont_ok_cons. assert (is_junk c = false) as -> by (unfold is_tchar, is_junk in *; cbn [in_ranges] in H; lia).
   unfold is_tchar in H. cbn [in_ranges] in H. lia.
 Qed.
 
@@ -91,7 +87,7 @@ Qed.
 Lemma cont_split t : cont_ok t = true -> exists jt tail, t = jt ++ tail /\ all_junk jt /\ head_ok tail.
 Proof.
   induction t as [|c t IH]; intros H; [exists [], []; repeat split; constructor|].
-  cbn [cont_ok] in H. destruct (is_junk c) eqn:Ej.
+  rewrite cont_ok_cons in H. destruct (is_junk c) eqn:Ej.
   - destruct (IH H) as (jt & tail & -> & Hj & Ht). exists (c :: jt), tail. repeat split; [constructor; assumption|exact Ht].
   - exists [], (c :: t). split; [reflexivity|]. split; [constructor|]. cbn. unfold is_stop. rewrite Ej.
     apply negb_true_iff in H. rewrite H. reflexivity.
@@ -137,7 +133,7 @@ Proof.
   { pose proof (scanA_render els j0 [] Hj0 Hels (or_introl eq_refl)) as H. rewrite !app_nil_r in H. exact H. }
   split; [|exact E]. split.
   - (* the first non-junk character, if any, starts an element *)
-    clear E. induction Hj0 as [|c j0 Hc Hj0 IH]; cbn [app cont_ok].
+    clear E. induction Hj0 as [|c j0 Hc Hj0 IH]; cbn [app]; rewrite ?cont_ok_cons.
     + destruct els as [|[e j] rest]; [reflexivity|]. destruct Hels as (((Hn & Ht) & _) & _).
       unfold abody. cbn [flat_map fst]. unfold render_rel. destruct (r_type e) as [|c t]; [contradiction|].
       inversion Ht; subst. cbn [app]. apply tchar_cont. assumption.
